@@ -123,6 +123,16 @@ func (r *runner) scenarioBlob(idx int) {
 			sort.Slice(parents, func(i, j int) bool { return bytes.Compare(parents[i][:], parents[j][:]) < 0 })
 			p := parents[rg.Intn(len(parents))]
 			ch := pick()
+			if rg.Chance(1, 12) {
+				// the error branch of `reference`: a cached child referenced from a parent that is
+				// not cached — the Go code dereferences a nil *cachedNode (model: `reference = none`)
+				var absent common.Hash
+				copy(absent[:], rg.Bytes(32))
+				cc := parents[rg.Intn(len(parents))]
+				r.out.Do(fmt.Sprintf("ref %s %s", hs(cc), hs(absent)), func() string { ndb.Reference(cc, absent); return "ok" })
+				r.stats["blob_ref_absent_parent"]++
+				continue
+			}
 			if rg.Chance(1, 4) && len(trieRoots) > 0 {
 				ch = trieRoots[rg.Intn(len(trieRoots))]
 			}
